@@ -331,4 +331,34 @@ structure NewickStreamLaws (C : NewickCodec) extends NewickLaws C where
   parse_ws_skip : ∀ a ws b, (∀ c ∈ a, c ≠ ';' ∧ c ≠ '[') → breakSafe a = true → (∀ c ∈ ws, isNewickWs c = true) →
       C.parse (a ++ ws ++ b) = C.parse (a ++ b)
 
+/- ## The domain of the multi-tree Newick clause
+
+   The mechanism is "splitting a Newick stream at a ';' ENDING a line".  Until fix 3850fd2 text that follows
+   a ';' on the same line was dropped WITHOUT an error (theorem `multi_sameline_drops_second` about the
+   pinned reader); since the fix every tree of a line is read, and such files are inside the domain
+   (`treesEndLines` is kept as a description of the input, tag `dom-semicolon-inside-line`).  A line end
+   that is a lone CR is no line end for `bufio.ReadLine`: outside the domain.  The driver decides this
+   from the text with these predicates (not from a harness label). -/
+
+/-- does the line hold a ';' outside a `[…]` comment that is followed by something else than blanks
+    (`inCom` = inside a comment) -/
+def semiInsideGo : Txt → Bool → Bool
+  | [], _ => false
+  | c :: r, inCom =>
+    if inCom then semiInsideGo r (c != ']')
+    else if c == '[' then semiInsideGo r true
+    else if c == ';' then !(r.all isBlank) || semiInsideGo r false
+    else semiInsideGo r false
+
+/-- every ';' outside a comment ends its line -/
+def treesEndLines (doc : Txt) : Bool := (splitLines doc).all fun l => !semiInsideGo l false
+
+/-- every CR is followed by LF -/
+def noLoneCR : Txt → Bool
+  | [] => true
+  | c :: r => (c != '\r' || r.head? == some '\n') && noLoneCR r
+
+/-- the domain of the multi-tree Newick clause: line ends are LF or CRLF -/
+def newickDomain (doc : Txt) : Bool := noLoneCR doc
+
 end Gotree.C13
